@@ -24,7 +24,7 @@ MANIFEST = {
 		'per family: whitespace (trailing, leading spaces, tabs-only line, space after operator, tab inside, double space, comma, '
 		'carriage return), line length, `template <`, `catch` placement, the typo list (every translatable pattern of TypoChecker, '
 		'witness validated by vm_compute), consecutive blank lines, blank line before the last line (whitespace-only; the empty-line '
-		'case is a refuted statement), pragma-once / licence header, region pairing, unseed_restores, exit_nonzero (< 256 failures). '
+		'case is a refuted statement = known finding), pragma-once / licence header (missing licence, missing pragma, empty line after pragma), region pairing, unseed_restores, exit_nonzero (< 256 failures). '
 		'Dependency rules (Lint/Deps.v over the regenerated deps.config): define expansion = product of leaf names, closure soundness '
 		'(every compiled allow-pair is a path of declared rules; completeness half not proved), an include without a justifying path is '
 		'reported. NO theorem (exercised only by seeded runs against the real linter): include order and first include, preprocessor '
